@@ -532,6 +532,13 @@ pub fn run(args: &Args) {
                 non-trivial = at least 4 different operation kinds and at least 2 accepted writes; distinct = by hash of the history".into();
     if let Some(path) = &args.replay {
         let j = read_replay(path);
+        if j["failing_input"]["kind"] == "factory_asset_vault_instantiate" {
+            factory_asset_vault_probe(&mut out);
+            for f in &out.monitor_failures { println!("MONITOR-FAIL {}", f["what"]); }
+            let failed = !out.monitor_failures.is_empty();
+            out.finish();
+            std::process::exit(if failed { 1 } else { 0 });
+        }
         let ops: Vec<Op> = serde_json::from_value(j["failing_input"]["ops"].clone()).expect("failing_input.ops");
         let obs = run_history(&mut out, &ops, false);
         println!("replayed {} ops; observation: {}", ops.len(), obs.join(" "));
@@ -540,9 +547,34 @@ pub fn run(args: &Args) {
         out.finish();
         std::process::exit(if failed { 1 } else { 0 });
     }
+    factory_asset_vault_probe(&mut out);
     let mut rng = Rng::new(args.seed);
     let mut hs = corpus();
     for _ in 0..args.n { hs.push(gen_history(&mut rng)); }
     for h in &hs { run_history(&mut out, h, true); }
     out.finish();
+}
+
+/// In this build a vault over a token-factory denom cannot be brought up on the test chain at all (its cw20 share token's ticker is
+/// refused, and token-factory share tokens are compiled out), so the rule "a vault over a token-factory asset has no burn fee" is
+/// exercised on the vault's `instantiate` entry point directly (mock dependencies; the share-token sub-message is only returned):
+/// with a burn fee it must be refused, without one accepted.
+fn factory_asset_vault_probe(out: &mut Out) {
+    use cosmwasm_std::testing::{mock_dependencies, mock_env, mock_info};
+    use white_whale_std::vault_network::vault::InstantiateMsg;
+    for denom in VAULT_ASSETS.iter().filter(|d| is_factory_token(d)) {
+        for burn in [0u128, 1, DEC / 1000, DEC / 2] {
+            for tf in [false, true] {
+                let mut deps = mock_dependencies();
+                let msg = InstantiateMsg { owner: "owner".into(), asset_info: native(denom), token_id: 5, vault_fees: vault_fee(DEC / 1000, DEC / 1000, burn),
+                    fee_collector_addr: "collector".into(), token_factory_lp: tf };
+                let r = run_catch(|| vault::contract::instantiate(deps.as_mut(), mock_env(), mock_info("factory", &[]), msg).map(|_| ()), |_e| E_OTHER);
+                let accepted = matches!(r, Outcome::Ok(()));
+                out.monitor_evals += 1;
+                out.count(&format!("factory_asset_vault:burn_{}:{}", if burn == 0 { "zero" } else { "positive" }, if accepted { "accepted" } else { "refused" }));
+                let replay = json!({"kind": "factory_asset_vault_instantiate", "asset_denom": denom, "burn_share_atomics": burn.to_string(), "token_factory_lp": tf});
+                if burn > 0 && accepted { out.monitor_fail("C18", &format!("a vault over the token-factory asset {} was instantiated with a burn fee", denom), replay); }
+            }
+        }
+    }
 }
